@@ -54,14 +54,17 @@ func (p *vpool) Put(x any)   { harnessLog.add("put:" + p.name) }
 func (p *vpool) Reset(x any) { harnessLog.add("reset:" + p.name) }
 
 func init() {
-	// vok(x): if-ok helper; the value is x, ok reports whether x has a non-empty text
+	// vok(x): if-ok helper; the value is a copy of x's text (nothing when there is none), ok
+	// reports whether that text is non-empty
 	dyntpl.RegisterCondOKFn("vok", func(ctx *dyntpl.Ctx, v *any, ok *bool, args []any) {
 		*v, *ok = nil, false
 		if len(args) == 0 {
 			return
 		}
-		t, _ := textOf(ctx, args[0])
-		*v, *ok = args[0], len(t) > 0
+		if t, _ := textOf(ctx, args[0]); len(t) > 0 {
+			cp := append([]byte(nil), t...)
+			*v, *ok = &cp, true
+		}
 	})
 	dyntpl.RegisterModFn("vup", "", func(ctx *dyntpl.Ctx, buf *any, val any, _ []any) error {
 		t, ok := textOf(ctx, val)
